@@ -1,0 +1,38 @@
+//go:build verif
+
+package harfbuzz
+
+import "unicode"
+
+// Read-only accessors used by the external verification harness (build tag "verif").
+// They expose the shaper's own Unicode lookups (harfbuzz/unicode.go) exactly as the shaper calls them.
+
+// VerifGeneralCategory returns the general category the shaper computes for [ch],
+// as the index in the table list returned by VerifGeneralCategories.
+func VerifGeneralCategory(ch rune) uint8 { return uint8(uni.generalCategory(ch)) }
+
+// VerifGeneralCategories returns the table list scanned by generalCategory
+// (a nil entry is the "unassigned" value).
+func VerifGeneralCategories() []*unicode.RangeTable { return generalCategories[:] }
+
+// VerifUnassigned is the value returned for code points in no table.
+func VerifUnassigned() uint8 { return uint8(unassigned) }
+
+// VerifModifiedCombiningClass returns the modified combining class used to reorder marks,
+// and VerifModifiedCombiningClassTable the table indexed by the canonical combining class.
+func VerifModifiedCombiningClass(ch rune) uint8 { return uni.modifiedCombiningClass(ch) }
+
+func VerifModifiedCombiningClassTable() [256]uint8 { return modifiedCombiningClass }
+
+// VerifMirroring, VerifDecompose, VerifCompose are the shaper's wrappers.
+func VerifMirroring(ch rune) rune { return uni.mirroring(ch) }
+
+func VerifDecompose(ab rune) (a, b rune, ok bool) { return uni.decompose(ab) }
+
+func VerifCompose(a, b rune) (rune, bool) { return uni.compose(a, b) }
+
+// VerifUnicodeProps returns the general category stored in the glyph properties by computeUnicodeProps.
+func VerifUnicodeProps(ch rune) uint8 {
+	p, _ := computeUnicodeProps(ch)
+	return uint8(p.generalCategory())
+}
